@@ -16,6 +16,9 @@
 (*  10 h2 = alt(f) (1)       11 l2 = h2 * t2            loss 2             *)
 (*  12 y  = [[1,2],[0,-1]] a            a second output (2)                *)
 (*  13 g  = a + e                       non-leaf depending on a (2)        *)
+(*  14 u1 leaf(2) rg, 15 u2 leaf(2) rg  two additive parameters of task 3  *)
+(*  16 s = u1 + u2   17 h3 = h1 + s   18 l3 = sum(h3)     loss 3           *)
+(*     (autograd hands the SAME gradient tensor to u1 and u2)              *)
 (***************************************************************************)
 EXTENDS Autograd
 
@@ -26,10 +29,14 @@ P0 == << Lf(2, <<1, -2>>, TRUE), Lf(2, <<3, 2>>, TRUE), Lf(1, <<4>>, TRUE),
          [op |-> "mul", a |-> 7, b |-> 4], [op |-> "lin", a |-> 8, mat |-> <<<<1, 1>>>>],
          [op |-> "lin", a |-> 7, mat |-> <<<<2, -1>>>>], [op |-> "mul", a |-> 10, b |-> 5],
          [op |-> "lin", a |-> 1, mat |-> <<<<1, 2>>, <<0, -1>>>>],
-         [op |-> "add", a |-> 1, b |-> 6] >>
+         [op |-> "add", a |-> 1, b |-> 6],
+         Lf(2, <<1, 3>>, TRUE), Lf(2, <<-2, 2>>, TRUE),
+         [op |-> "add", a |-> 14, b |-> 15], [op |-> "add", a |-> 8, b |-> 16],
+         [op |-> "lin", a |-> 17, mat |-> <<<<1, 1>>>>] >>
 A == 1  Bb == 2  C == 3  T1 == 4  T2 == 5  Ee == 6  F == 7  L1 == 9  L2 == 11  Y == 12  G == 13
-AllLeaves == {1, 2, 3, 4, 5, 6}
-GradLeaves == {1, 2, 3, 4, 5}
+U1 == 14  U2 == 15  L3 == 18
+AllLeaves == {1, 2, 3, 4, 5, 6, 14, 15}
+GradLeaves == {1, 2, 3, 4, 5, 14, 15}
 
 None == <<>>
 Plus(g, u) == IF g = None THEN u ELSE VAdd(g, u)
